@@ -316,10 +316,14 @@ pub fn run_c11(ctx: &Ctx, rep: &mut Report) {
         let limit = if ctx.thorough { msg.len() } else { msg.len().min(260) };
         let mut corrupted_ok = 0u64;
         'corrupt: for pos in 2..limit {
-          // three single-bit changes per octet (a field may shrink as well as grow); never bit 5, a
+          // four single-bit changes per octet (a field may shrink as well as grow); never bit 5, a
           // pure ASCII-case change (names are compared and digested case-insensitively), and never
-          // bit 7 (a TSIG TTL with only its top bit set is the RFC 2181 "treat as zero" case)
-          for mask in [0x01u8, 0x02, 0x04] {
+          // bit 7 of the first octet of the TSIG RR's TTL (a TTL with only its top bit set is the
+          // RFC 2181 "treat as zero" case)
+          for mask in [0x01u8, 0x02, 0x04, 0x80] {
+            if mask == 0x80 && pos == tsig_start + key_name.wire_len() + 4 {
+                continue;
+            }
             let mut m = msg.clone();
             m[pos] ^= mask;
             if pos >= tsig_start && pos < tsig_start + key_name.wire_len() {
